@@ -550,6 +550,20 @@ def _replay(spec):
             if it.get_time() != full.index[-1] or not _same(it.get_pva().values, full.values[-1]):
                 failed.append('get_time/get_pva do not return the latest row')
         elif kind == 'predict':
+            # rows with special values first: no time passed (dt exactly 0, all-zero row - what the
+            # feedback filter predicts with when an epoch falls on the current time) and an impulsive
+            # row (dt = 0, non-zero increments): predict = the row a twin integrator's integrate appends
+            for label, row0 in (('all-zero row with dt = 0', ch.iloc[0] * 0.0), ('impulsive row with dt = 0', ch.iloc[0].where(ch.columns != 'dt', 0.0))):
+                row0 = row0.copy()
+                row0.name = ch.index[0]
+                twin = mk(cap, pva0)
+                if n > 1:
+                    twin.integrate(inc.iloc[:n - 1])
+                pr0 = it.predict(row0)
+                app = twin.integrate(row0.to_frame().transpose()).iloc[-1]
+                if not _same(pr0.values, app.values) or pr0.name != app.name:
+                    failed.append('predict(%s) differs from the row the next integrate of that increment appends (max |diff| %.3g, stamps %r / %r)' % (
+                        label, np.abs(np.asarray(pr0.values, dtype=float) - np.asarray(app.values, dtype=float)).max(), pr0.name, app.name))
             before = it.trajectory.copy()
             pr = it.predict(ch.iloc[0])
             if not _same(it.trajectory.values, before.values) or len(it.trajectory) != len(before):
